@@ -95,7 +95,9 @@ Inductive fop : Type :=
 | FScalar (a : I -> triple Cops) (a0 : option (I -> triple Cops))
 | FMatrix (m : I -> mat3 Cops) (m0 : option (I -> mat3 Cops))
 | FShift (d : Z) (nm : option nat)
-| FPD (p : C)
+| FPD (p : C) (r : bool)
+| FSpoil
+| FReset
 | FWait.
 
 Definition inst (f : fop) (x : I) : op Cops :=
@@ -103,7 +105,9 @@ Definition inst (f : fop) (x : I) : op Cops :=
   | FScalar a a0 => OScalar (a x) (option_map (fun g => g x) a0)
   | FMatrix m m0 => OMatrix (m x) (option_map (fun g => g x) m0)
   | FShift d nm => OShift d nm
-  | FPD p => @OPD Cops p false
+  | FPD p r => @OPD Cops p r
+  | FSpoil => OSpoil
+  | FReset => OReset
   | FWait => OWait
   end.
 
@@ -112,7 +116,9 @@ Definition is_jet (f : fop) (o : op J) : Prop :=
   | FScalar a a0, OScalar ja ja0 => jT a ja /\ ojet jT a0 ja0
   | FMatrix m m0, OMatrix jm jm0 => jM m jm /\ ojet jM m0 jm0
   | FShift d nm, OShift d' nm' => d = d' /\ nm = nm'
-  | FPD p, OPD jp false => jp = inj p
+  | FPD p r, OPD jp r' => jp = inj p /\ r = r'
+  | FSpoil, OSpoil => True
+  | FReset, OReset => True
   | FWait, OWait => True
   | _, _ => False
   end.
@@ -163,7 +169,7 @@ Lemma j_step n f o sf sj : is_jet f o -> jinv n sf sj ->
   jinv (op_n J o n) (fun x => apply (inst f x) (sf x)) (apply o sj).
 Proof.
   intros Hj Hinv.
-  destruct f as [a a0|m m0|d nm|p|]; destruct o as [ja ja0|jm jm0|d' nm'| | |jp r|]; cbn [is_jet] in Hj; try contradiction.
+  destruct f as [a a0|m m0|d nm|p r| | |]; destruct o as [ja ja0|jm jm0|d' nm'| | |jp r'|]; cbn [is_jet] in Hj; try contradiction.
   - (* ScalarOp *)
     destruct Hj as [Ha Ha0]. cbn [op_n inst apply].
     apply (j_lin_step n sf sj (fun x => LScalar (a x) (option_map (fun g => g x) a0)) (LScalar ja ja0)); auto.
@@ -195,19 +201,47 @@ Proof.
       apply (jT_ext (fun x => gete Cops (resize (sf x) (shift_n d nm n)) k)).
       * intros t. now rewrite (gete_shift Cops d nm (sf t) n k (Hf t)).
       * exact (je_resize sf sj n _ Hf Hs He k).
-  - (* PD(reset=False) *)
-    destruct r; [contradiction|]. subst jp. destruct Hinv as (Hf & Hs & Hg & He). cbn [op_n inst apply].
+  - (* PD(pd, reset): the density is a constant *)
+    destruct Hj as [-> <-]. destruct Hinv as (Hf & Hs & Hg & He). cbn [op_n inst apply].
+    assert (Jc : forall k : Z, jT (fun _ : I => if (k =? 0)%Z then @mk3 Cops (RtoC 0) (RtoC 0) p else t0)
+                                  (if (k =? 0)%Z then @mk3 J k0 k0 (inj p) else t0)).
+    { intros k. destruct (k =? 0)%Z; [|apply jT_t0].
+      split; [|split]; cbn [fp fm fz]; [exact jC_0|exact jC_0|exact (jC_const p)]. }
     split; [|split; [|split]].
     + intros x. now apply pd_shaped.
     + now apply pd_shaped.
-    + intros k. rewrite (get_pd J _ false sj n k Hs).
-      apply (jT_ext (fun x => get Cops (sf x) k)); [|apply Hg].
-      intros t. now rewrite (get_pd Cops p false (sf t) n k (Hf t)).
-    + intros k. rewrite (gete_pd J _ false sj n k Hs).
-      apply (jT_ext (fun x => if (k =? 0)%Z then @mk3 Cops (RtoC 0) (RtoC 0) p else t0)).
-      * intros t. now rewrite (gete_pd Cops p false (sf t) n k (Hf t)).
-      * destruct (k =? 0)%Z; [|apply jT_t0].
-        split; [|split]; cbn [fp fm fz]; [exact jC_0|exact jC_0|exact (jC_const p)].
+    + intros k. rewrite (get_pd J _ r sj n k Hs). destruct r.
+      * apply (jT_ext (fun x => if (k =? 0)%Z then @mk3 Cops (RtoC 0) (RtoC 0) p else t0)); [|apply Jc].
+        intros t. now rewrite (get_pd Cops p true (sf t) n k (Hf t)).
+      * apply (jT_ext (fun x => get Cops (sf x) k)); [|apply Hg].
+        intros t. now rewrite (get_pd Cops p false (sf t) n k (Hf t)).
+    + intros k. rewrite (gete_pd J _ r sj n k Hs).
+      apply (jT_ext (fun x => if (k =? 0)%Z then @mk3 Cops (RtoC 0) (RtoC 0) p else t0)); [|apply Jc].
+      intros t. now rewrite (gete_pd Cops p r (sf t) n k (Hf t)).
+  - (* SPOILER *)
+    destruct Hinv as (Hf & Hs & Hg & He). cbn [op_n inst apply].
+    split; [|split; [|split]].
+    + intros x. now apply spoil_shaped.
+    + now apply spoil_shaped.
+    + intros k. rewrite (get_spoil J sj k).
+      apply (jT_ext (fun x => @mk3 Cops (RtoC 0) (RtoC 0) (fz (get Cops (sf x) k)))).
+      * intros t. now rewrite (get_spoil Cops (sf t) k).
+      * destruct (Hg k) as (_ & _ & C3).
+        split; [|split]; cbn [fp fm fz]; [exact jC_0|exact jC_0|exact C3].
+    + exact He.
+  - (* RESET *)
+    destruct Hinv as (Hf & Hs & Hg & He). cbn [op_n inst apply].
+    split; [|split; [|split]].
+    + intros x. now apply (reset_shaped Cops (sf x) n).
+    + now apply (reset_shaped J sj n).
+    + intros k. rewrite (get_reset J sj n k Hs).
+      apply (jT_ext (fun x => if (k =? 0)%Z then gete Cops (sf x) 0 else t0)).
+      * intros t. now rewrite (get_reset Cops (sf t) n k (Hf t)).
+      * destruct (k =? 0)%Z; [apply He|apply jT_t0].
+    + intros k. rewrite (gete_reset J sj n k Hs).
+      apply (jT_ext (fun x => if (k =? 0)%Z then gete Cops (sf x) 0 else t0)).
+      * intros t. now rewrite (gete_reset Cops (sf t) n k (Hf t)).
+      * destruct (k =? 0)%Z; [apply He|apply jT_t0].
   - (* Wait *)
     exact Hinv.
 Qed.
@@ -247,7 +281,7 @@ Qed.
 
 End GenJet.
 
-Arguments FScalar {I}. Arguments FMatrix {I}. Arguments FShift {I}. Arguments FPD {I}. Arguments FWait {I}.
+Arguments FScalar {I}. Arguments FMatrix {I}. Arguments FShift {I}. Arguments FPD {I}. Arguments FSpoil {I}. Arguments FReset {I}. Arguments FWait {I}.
 
 (* ================================================================================== *)
 (* Part B: double dual numbers over C and the two second-order jets                   *)
